@@ -92,13 +92,16 @@ NA_REASON = "not claimed"
 HIST = (" Caller histories: module CallHistory models a caller that reuses its input buffer and overwrites or keeps results, with an honest and three "
         "flawed implementations (TLC: honest correct, each flaw exposed within three calls); all histories of three calls over three inputs x {own, keep} "
         "written by TLC (CallHistoryGen) are replayed on the real functions and every call is judged by the same trace specification. The drivers keep "
-        "the caller's buffer discipline for all other events too (reused input buffers with canaries, results overwritten or kept, repeated calls).")
+        "the caller's buffer discipline for all other events too (reused input buffers with canaries, results overwritten or kept over their whole capacity, repeated calls). "
+        "Failure histories: module CallFailure models working memory taken from a pool by a staged call and by its nested helper, with an honest implementation and two "
+        "flawed ones (scratch given back dirty, or twice, on an error return; TLC: exposed only by the rejection of the right stage followed by a valid call); the histories "
+        "written by TLC (CallFailureGen) are instantiated with one recorded rejected input per kind of rejection seen and replayed on the real functions.")
 CONC = " Concurrent phases (several goroutines, child processes for first use) are compared with the sequential answers and judged by the trace specification."
 WB = (" Events that call unexported functions or instantiate unexported types only search: a rejection there counts together with a rejection at the "
       "exported API, after a directed API-level campaign on the deviating parameters, or - beyond the reach of the API - when the same function conforms on "
       "all reachable white-box events (vlib.settle_whitebox); otherwise the leg is listed under skipped_legs.")
-EXTRA = {"C03": HIST + CONC, "C04": HIST + CONC + WB, "C05": HIST + CONC + WB, "C09": HIST + CONC, "C10": HIST, "C14": HIST, "C15": HIST + WB, "C19": HIST,
-         "C16": HIST + CONC + WB, "C11": CONC + WB, "C12": CONC + WB, "C17": HIST + CONC + WB, "C08": HIST + CONC + WB, "C06": CONC, "C18": HIST + CONC, "C01": HIST + CONC, "C07": HIST, "C02": HIST, "C20": WB}
+EXTRA = {"C03": HIST + CONC, "C04": HIST + CONC + WB, "C05": HIST + CONC + WB, "C09": HIST + CONC, "C10": HIST + CONC, "C14": HIST + CONC, "C15": HIST + WB, "C19": HIST + CONC,
+         "C16": HIST + CONC + WB, "C11": CONC + WB, "C12": CONC + WB, "C17": HIST + CONC + WB, "C08": HIST + CONC + WB, "C06": CONC, "C18": HIST + CONC, "C01": HIST + CONC, "C07": HIST + CONC, "C02": HIST, "C20": WB}
 
 
 def main():
